@@ -31,7 +31,7 @@ from ..engine.cfg import own_parts
 from ..engine.report import AnalysisError, Run
 from ..engine.resolver import Program, body_walk
 from ..engine.util import canon, canon_total, find_calls, method_call, u
-from ._c06_util import Flow, HelperCalls, indent_of, lifted, pruned, seg, spliced, stmt_patch, truth_atom
+from ._c06_util import Flow, HelperCalls, indent_of, inline_all, lifted, names_eq, pruned, unawait, seg, spliced, stmt_patch, truth_atom
 
 STEPS = "timeseries.formula_engine._formula_steps"
 MF = f"{STEPS}:MetricFetcher"
@@ -171,12 +171,12 @@ def check_sel(run: Run, prog: Program) -> None:
 def check_err(run: Run, prog: Program) -> None:
     cls = prog.cls(MF)
     n = 0
-    TERMINAL = {
-        ("_fetch_next", "no fallback configured: the error is the formula's to report"),
-        ("fetch_next_with_fallback", "fallback read after the primary already failed: nothing left to fall back to"),
-    }
+    # terminal sites: (a) on the paths of fetch_next() while no fallback is configured: the error is the formula's
+    # to report; (b) the fallback read after the primary already failed: nothing left to fall back to
     terminal_used = set()
-    for m in cls.methods.values():
+    unit = fetch_unit(prog)
+    absorbed = set(getattr(unit.node, "_inlined", ())) | {"fetch_next"}
+    for m in [unit] + [x for x in cls.methods.values() if x.name not in absorbed]:
         parents = {}
         for node in ast.walk(m.node):
             for ch in ast.iter_child_nodes(node):
@@ -200,9 +200,8 @@ def check_err(run: Run, prog: Program) -> None:
             who = u(call.func.value)  # type: ignore[union-attr]
             if handler is None:
                 key = m.name
-                is_terminal = any(k == key for k, _ in TERMINAL) and (
-                    (m.name == "_fetch_next" and _only_without_fallback(prog, m, call))
-                    or (m.name == "fetch_next_with_fallback" and in_handler))
+                is_terminal = (m is unit and _only_without_fallback(prog, m, call)) \
+                    or (m.name == "fetch_next_with_fallback" and in_handler)
                 if is_terminal:
                     terminal_used.add(key)
                     run.ok("C19.ERR", f"{m.qual}: `{u(call)}` is a documented terminal site")
@@ -231,6 +230,12 @@ def _only_without_fallback(prog: Program, m: Any, call: ast.Call) -> bool:
     nid = fl.node_of(call)
     return fl.cfg.path(fl.cfg.entry, [nid], edge_ok=pruned(fl.cfg, scenario(configured=True), normal_only=False)) is None \
         and fl.cfg.path(fl.cfg.entry, [nid], edge_ok=pruned(fl.cfg, scenario(configured=False), normal_only=False)) is not None
+
+
+def fetch_unit(prog: Program) -> Any:
+    """MetricFetcher.fetch_next() as one unit of behaviour: every private callee read in (`_fetch_next`,
+    whatever it is called, however it is split, or already inlined), except the shared validity predicate."""
+    return inline_all(prog, prog.func(f"{MF}.fetch_next"), stop={"_is_value_valid"})
 
 
 def _fallback_model(fl: Flow) -> tuple[Any, Any, Any, list[tuple[int, ast.Call]]]:
@@ -271,11 +276,26 @@ def check_lazy(run: Run, prog: Program) -> None:
     `self._fallback is None`, `self._fallback.is_running` and `self._is_value_valid(<received>.value)`
     are the atoms; whatever their spelling (negated, named by a local, early return or else-branch),
     a scenario cuts the branches it cannot take."""
-    raw = prog.func(f"{MF}._fetch_next")
+    raw = prog.func(f"{MF}.fetch_next")
     run.analysed(raw.qual)
-    fl = Flow(prog, spliced(prog, raw))
+    unit = fetch_unit(prog)
+    for nm in sorted(getattr(unit.node, "_inlined", ())):
+        run.analysed(f"{MF}.{nm}")
+    fl = Flow(prog, unit)
     cfg = fl.cfg
     normal = lambda a, b, lab: not lab.startswith("exc:")  # noqa: E731
+    next_stores = [n.id for n in cfg.nodes if n.id in fl.live and any(
+        isinstance(t, ast.Attribute) and t.attr == "_next_value" and u(t.value) == "self" for t in fl._writes(n.id))]
+
+    def returned(r: int, scn: Any = None) -> list[Any]:
+        """Origins of what a return statement hands back (read through `self._next_value` when that is returned)."""
+        rv = cfg.nodes[r].ast.value  # type: ignore[union-attr]
+        if rv is None:
+            return []
+        if u(rv) == "self._next_value" and len(next_stores) == 1 and cfg.path(cfg.entry, [r], avoid=next_stores) is None:
+            st_ = cfg.nodes[next_stores[0]].ast
+            return fl.origin(st_.value, next_stores[0], scenario=scn)  # type: ignore[union-attr]
+        return fl.origin(rv, r, scenario=scn)
 
     is_fb, awaited, scenario, recv = _fallback_model(fl)
     starts = [nid for nid, c in fl.calls(lambda c: isinstance(c.func, ast.Attribute) and c.func.attr == "start")
@@ -317,8 +337,15 @@ def check_lazy(run: Run, prog: Program) -> None:
     if ok:
         good = cfg.reachable(after, edge_ok=valid_e)
         rets = [r for r in fl.returns() if r in good]
-        run.check(st not in good and bool(rets) and all(
-            cfg.nodes[r].ast.value is not None and fl.is_node(cfg.nodes[r].ast.value, prim[0][1], r) for r in rets),  # type: ignore[union-attr]
+        base_e = pruned(cfg, scenario(configured=True, running=False, valid=True), normal_only=False)
+        # ... the primary was received (its receive did not raise) and is valid
+        valid_scn = lambda _f: (lambda a, b, lab: base_e(a, b, lab) and not (a == prim[0][0] and lab.startswith("exc:")))  # noqa: E731
+
+        def is_prim(r: int) -> bool:
+            o = returned(r, valid_scn)
+            return bool(o) and all(q.kind == "expr" and unawait(q.node) is prim[0][1] for q in o)
+
+        run.check(st not in good and bool(rets) and all(is_prim(r) for r in rets),
             "C19.LAZY", raw.qual, "valid primary -> returned, fallback not started",
             "a valid primary sample starts the fallback (or is not returned)", node=raw.node, file=raw.file)
         bad = cfg.reachable(after, edge_ok=invalid_e)
@@ -339,26 +366,27 @@ def check_lazy(run: Run, prog: Program) -> None:
     run.check(wit is None and plain is not None, "C19.LAZY", raw.qual, "if self._fallback is None: primary only",
               "the fallback is dereferenced without checking that one is configured", node=raw.node, file=raw.file,
               path=cfg.describe_path(wit))
-    # fetch_next stores what _fetch_next returned, and returns that very sample
-    fnx = prog.func(f"{MF}.fetch_next")
-    fx = Flow(prog, fnx)
-    got = [(nid, c) for nid, c in fx.calls(lambda c: method_call(c, "self", "_fetch_next"))
-           if isinstance(fx._parent.get(id(c)), ast.Await)]
-    stores = [n.id for n in fx.cfg.nodes if n.id in fx.live and any(
-        isinstance(t, ast.Attribute) and t.attr == "_next_value" and u(t.value) == "self" for t in fx._writes(n.id))]
-    ok = len(got) == 1 and len(stores) == 1
+    # what apply() later pushes (self._next_value) is the sample this very call fetched, and it is what is returned
+    def is_source(e: ast.AST | None) -> bool:
+        c = unawait(e)
+        return isinstance(e, ast.Await) and isinstance(c, ast.Call) and (
+            method_call(c, "self._stream", "receive") or method_call(c, "self", "fetch_next_with_fallback"))
+
+    ok = len(next_stores) == 1
     if ok:
-        gn, gc = got[0]
-        st_node = fx.cfg.nodes[stores[0]].ast
+        st_node = cfg.nodes[next_stores[0]].ast
         val = getattr(st_node, "value", None)
-        ok = isinstance(st_node, (ast.Assign, ast.AnnAssign)) and val is not None and fx.is_node(val, gc, stores[0]) \
-            and fx.cfg.path(fx.cfg.entry, [fx.cfg.exit], avoid=stores, edge_ok=normal) is None
-        for r in fx.returns():
-            rv = fx.cfg.nodes[r].ast.value  # type: ignore[union-attr]
-            stored_read = rv is not None and u(rv) == "self._next_value" and fx.cfg.path(fx.cfg.entry, [r], avoid=stores) is None
-            ok = ok and rv is not None and (stored_read or fx.is_node(rv, gc, r))
-    run.check(ok, "C19.LAZY", fnx.qual, "self._next_value = await self._fetch_next()",
-              "the fetched sample is not what apply() later pushes", node=fnx.node, file=fnx.file)
+        ok = isinstance(st_node, (ast.Assign, ast.AnnAssign)) and val is not None \
+            and cfg.path(cfg.entry, [cfg.exit], avoid=next_stores, edge_ok=normal) is None
+        if ok:
+            so = fl.origin(val, next_stores[0])
+            ok = bool(so) and all(q.kind == "expr" and (is_source(q.node) or (isinstance(q.node, ast.Constant) and q.node.value is None))
+                                  for q in so) and any(is_source(q.node) for q in so)
+            for r in fl.returns():
+                ok = ok and names_eq(returned(r), so)
+            ok = ok and bool(fl.returns())
+    run.check(ok, "C19.LAZY", raw.qual, "self._next_value = <the sample fetched by this call>, and that is returned",
+              "the fetched sample is not what apply() later pushes", node=raw.node, file=raw.file)
 
 
 def check_sync(run: Run, prog: Program, rule: str = "C19.SYNC") -> None:
